@@ -1,16 +1,21 @@
-//! Checks of the node group: C04 C07 C14 C15 C16 C17 C40.
+//! Checks of the node group: C04, C07, C14, C15, C16, C17, C40.
+mod eph;
 mod props;
 
 fn main() {
+    // C15 re-executes this binary as a crash worker.
+    if std::env::args().nth(1).as_deref() == Some("c15-worker") {
+        props::c15::worker_main();
+    }
     let ctx = engine::Ctx::from_args();
     match ctx.id.as_str() {
-        // "C04" => props::c04::run(ctx),
-        // "C07" => props::c07::run(ctx),
-        // "C14" => props::c14::run(ctx),
-        // "C15" => props::c15::run(ctx),
-        // "C16" => props::c16::run(ctx),
-        // "C17" => props::c17::run(ctx),
-        // "C40" => props::c40::run(ctx),
+        "C04" => props::c04::run(ctx),
+        "C07" => props::c07::run(ctx),
+        "C14" => props::c14::run(ctx),
+        "C15" => props::c15::run(ctx),
+        "C16" => props::c16::run(ctx),
+        "C17" => props::c17::run(ctx),
+        "C40" => props::c40::run(ctx),
         other => engine::harness_error(&format!("property {other} is not served by verif-node")),
     }
 }
